@@ -7,6 +7,7 @@
                                      perm_invariant(_refuted), s_model_equiv, noisy_killed_equiv,
                                      dangling_removal_sound, renumber_iso, rewrite_preserves_phys
              props/C05.v             model on the DESIGN reproducers, switch_replace_noevent, switch_before_refuted
+                                     closed_chain_exact, closed_chain_combine_sound (chains whose two ends coincide)
   correspond theory/RewriteModel.v (hand model H of simplify / renumber / s_model / noisy / switches) is
              evaluated inside Coq on the inputs the real code ran on (tools/impl_rewrite.py), for the
              enumeration order Python actually used (4 PYTHONHASHSEED values per simplify case), and the
@@ -38,7 +39,8 @@ MANIFEST = {
             'theorems for the rest (F3 polarity, F4 initial-condition sum, dependence on the enumeration order); '
             'dangling_removal_sound, renumber_iso, s_model_equiv, noisy_killed_equiv, switch_replace_noevent; the orientation rule a '
             'combination has to satisfy is stated once (series_rule / parallel_rule) with series_rule_repaired, series_rule_unchanged '
-            '(exact side conditions) and series_rule_violated / parallel_rule_violated.  The model is tied '
+            '(exact side conditions) and series_rule_violated / parallel_rule_violated; closed chains (isolated loops): '
+            'closed_chain_exact (iff) and closed_chain_combine_sound (whole netlist).  The model is tied '
             'to the code by evaluating it inside Coq on what the real code did, for the set-enumeration order actually used.',
     'note': 'Trusted: Coq kernel/vm_compute; specification coq/theory/Circuit.v; hand model coq/theory/RewriteModel.v validated by '
             'correspondence on every run (simplify incl. namer, wires, dangling/disconnected removal, select/ignore/keep_nodes/passes; '
@@ -53,7 +55,11 @@ MANIFEST = {
             '(RewriteCorrI.v: impedances at j omega, sources left as transforms in s) and compared with the code, without an electrical '
             'oracle (the result mixes phasor impedances with Laplace sources; s_model_equiv covers it for arbitrary fields); '
             'noise_model() is compared structurally (the symbolic value sqrt(4 k_B T R) is not); expand is checked as the identity '
-            '(no expandable components are generated).',
+            '(no expandable components are generated).  Closed chains (both ends of the chain are one node; degenerate case: an isolated '
+            'pair that is in series and in parallel, which simplify() series-combines and shorts) are generated on purpose; '
+            'closed_chain_combine_sound is series_combine_sound without any distinct-ends hypothesis, closed_chain_exact says that for them '
+            'equal source sums are necessary and sufficient; the private joints are not retained nodes (the rewrite shorts them), the loop '
+            'current is: the oracle compares the current of the combined element with that of the member it replaces.',
     'technique': 'Coq proof (port equivalence, series/parallel combination, converses) + hand model evaluated in Coq against the real '
                  'rewrites under 4 hash seeds + electrical solve-and-compare oracle',
 }
@@ -107,6 +113,15 @@ CORPUS = [
     {'netlist': ['V1 1 0 5', 'SW1 1 2 no 5', 'R1 2 0 3', 'SW2 2 3 nc 2', 'R2 3 0 1'], 'op': 'switch_before', 'args': {'t': '3'}, 's0': '2', 'tags': ['corpus', 'replace_switches_before:inverted']},
     {'netlist': ['V1 1 0 5', 'SW1 1 2 no 5', 'R1 2 0 3', 'SW2 2 3 nc 2', 'R2 3 0 1'], 'op': 'switch_before', 'args': {'t': '5'}, 's0': '2', 'tags': ['corpus', 'switch']},
     {'netlist': ['V1 1 0 5', 'SW1 1 2 no 5', 'R1 2 0 3', 'SW2 2 3 nc 2', 'R2 3 0 1'], 'op': 'switch', 'args': {'t': '3'}, 's0': '2', 'tags': ['corpus', 'switch']},
+    # closed chains (both ends of the chain are one node); the first is the degenerate pair that is in series AND in parallel
+    {'netlist': ['V1 1 0 step 5', 'R1 1 0 2', 'C1 2 0 3 1', 'C2 2 0 5 1'], 'op': 'simplify', 'args': {}, 's0': '3/2', 'tags': ['corpus', 'closed_loop'],
+     'loop': {'at': '0', 'members': ['C1', 'C2'], 'type': 'C', 'len': 2}},
+    {'netlist': ['V1 1 0 step 5', 'R1 1 0 2', 'C1 2 0 3 1', 'C2 2 3 5 2', 'C3 3 0 2 1'], 'op': 'simplify', 'args': {}, 's0': '3/2', 'tags': ['corpus', 'closed_loop'],
+     'loop': {'at': '0', 'members': ['C1', 'C2', 'C3'], 'type': 'C', 'len': 3}},
+    {'netlist': ['V1 1 0 step 5', 'R1 1 0 2', 'R2 2 1 3', 'V2 3 2 step 4', 'R3 1 3 5'], 'op': 'simplify', 'args': {}, 's0': '3/2', 'tags': ['corpus', 'closed_loop'],
+     'loop': {'at': '1', 'members': ['R2', 'R3'], 'type': 'R', 'len': 3}},
+    {'netlist': ['V1 1 0 step 5', 'R1 1 0 2', 'L1 2 1 3 0', 'L2 2 1 5 0'], 'op': 'simplify', 'args': {'keep_nodes': ['0', '2']}, 's0': '3/2', 'tags': ['corpus', 'closed_loop'],
+     'loop': {'at': '1', 'members': ['L1', 'L2'], 'type': 'L', 'len': 2}},
 ]
 
 
@@ -155,6 +170,13 @@ def gen_cases(rng, tier):
     n_sw = 8 if tier == 'quick' else 40
     for i in range(n_sw):
         cases.append(G.gen_switch_case(rng))
+    # closed chains hung on one node (appended last: the cases above stay what they were for every seed)
+    for i in range(8 if tier == 'quick' else 70):
+        nl = G.gen_netlist(rng, 'mixed', rng.choice(['none', 'none', 'unequal']), 'same', extras=False, small=True, kw='step')
+        lines, info = G.add_closed_loop(rng, nl['lines'])
+        args = {} if i % 2 == 0 else G.gen_simplify_args(rng, lines, 'rand')
+        cases.append({'netlist': lines, 'tags': nl['tags'] + ['closed_loop', 'closed_loop_%s%d' % (info['type'], info['len'])], 'op': 'simplify',
+                      'args': args, 'loop': info, 's0': '%d/%d' % (rng.randint(1, 9), rng.randint(1, 4))})
     return cases
 
 
@@ -568,6 +590,12 @@ def run(tier='quick', replay=None):
                             nm = dict(ent[1])
                     co = dict(c, node_rename=nm)
                 obad = G.oracle(co, r['orig'], r['new'], so, sn, r.get('log'))
+                if c.get('loop') and obad is not None:
+                    lbad = G.loop_current_check(c, r, so, sn)
+                    res.count('closed_chain_loop_current_' + ('not_compared' if lbad is None else 'compared'))
+                    if lbad is not None and flags is not None and flags[3] and all(flags[:3]) and not events:
+                        res.count('closed_chain_meeting_all_theorem_preconditions')
+                    obad = obad + (lbad or [])
             tags = []
             if kind == 'simplify' and flags is not None:
                 tags = ['simplify:' + TAGS[e] for e in sorted(set(events))]
@@ -648,6 +676,10 @@ def run(tier='quick', replay=None):
                                     nm = dict(ent[1])
                             co = dict(c, node_rename=nm)
                         print('REPLAY oracle (solve both circuits): %s' % (G.oracle(co, r['orig'], r['new'], so, sn, r.get('log')) or 'retained voltages and currents agree'))
+                        if c.get('loop'):
+                            lb = G.loop_current_check(c, r, so, sn)
+                            print('REPLAY oracle (closed chain, current of the combined element vs the member it replaces): %s'
+                                  % ('not compared' if lb is None else (lb or 'agree')))
                     else:
                         print('REPLAY oracle: not comparable (original unsolvable or the rewrite raised)')
         res.programs = nprog
@@ -656,6 +688,8 @@ def run(tier='quick', replay=None):
                     'none/equal/unequal/partial, dangling and disconnected parts, wire-split nodes, a VCVS; random select/ignore/keep_nodes/passes/'
                     'series/parallel/dangling/disconnected; every simplify case under PYTHONHASHSEED 0..3; plus renumber (with and without map), '
                     'copy, expand, subs, s_model, noisy+kill_noise, replace_switches[_before] around the activation times and a fixed corpus; '
+                    'closed chains of 2-3 like elements (R/C/L/Z/Y/V, any orientation, initial conditions none/equal/unequal/partial/zero, '
+                    'sometimes a foreign element inside) hung on a random node; '
                     'non-trivial = the original circuit was solvable (or the rewrite raised); distinct = distinct (op, netlist, args, hash seed)')
         for name, f, msg in res.failed_obl:
             add('obligation:' + name, 'Coq obligation %s in %s no longer checks' % (name, f), None, theorem=name, file=f, message=msg, found_input=False)
